@@ -157,7 +157,7 @@ pub fn run_one(args: &Args) {
         println!("{}", json!({"expression": "<the growth monitor's sweep over self-similar families>", "family": "growth-monitor", "depth_metric": 40, "bytes": 0}));
         if args.kv.get("run").map_or(false, |v| v == "1") {
             let mut rep = Report::new("C05");
-            growth_monitor(&mut rep);
+            growth_monitor(&mut rep, 40);
             println!("RETURNED violations={}", rep.violations_total);
         }
         return;
@@ -322,7 +322,7 @@ const GROWTH_FAMILIES: [&str; 12] = [
 /// parser's step counters (hooks) must grow linearly along a self-similar family. The sweep
 /// stops at the first level that exceeds the bound, so a doubling-per-level defect is
 /// reported after a few thousand steps instead of hanging the run.
-fn growth_monitor(rep: &mut Report) {
+fn growth_monitor(rep: &mut Report, max_level: usize) {
     let doc = rcvar_of(&json!(7));
     let mut check = |rep: &mut Report, fam: &str, what: &str, series: &[(usize, u64)], d: usize, steps: u64, text: &str| -> bool {
         if series.len() < 2 {
@@ -345,7 +345,7 @@ fn growth_monitor(rep: &mut Report) {
     for fam in GROWTH_FAMILIES.iter() {
         let mut interp: Vec<(usize, u64)> = vec![];
         let mut parse: Vec<(usize, u64)> = vec![];
-        for d in 1..=40usize {
+        for d in 1..=max_level {
             let text = growth_family(fam, d).expect("family");
             rep.evaluations += 1;
             jmespath::verif::reset();
@@ -421,7 +421,7 @@ pub fn run(args: &Args) {
     // (0) work grows with the expression, not exponentially in its nesting
     if args.shard == 0 && !skip.contains(&30_000_000_000) {
         mark("B", 30_000_000_000);
-        growth_monitor(&mut rep);
+        growth_monitor(&mut rep, if args.tier == "thorough" { 150 } else { 40 });
         mark("E", 30_000_000_000);
     }
     // (1) exhaustive numeric-edge slices: start/stop/step over the edge set x array lengths
